@@ -185,7 +185,7 @@ def git_err_class(stderr):
 
 
 # ---------------------------------------------------------------- generators
-NAMES = [b"a", b"b.txt", b"c.go", b"d", b"e", b"src", b"x.go", b"README.md", b"Makefile", b"lib", b"main.c", b"z",
+NAMES = [b"a", b"ab", b"a.b", b"b.txt", b"c.go", b"d", b"d.x", b"e", b"src", b"src2", b"x.go", b"README.md", b"Makefile", b"lib", b"main.c", b"z",
          b"with space", b"\xc3\xa9t\xc3\xa9", b"\xe2\x82\xac", b"a.b.c", b"-dash", b"~tilde", b"#hash", b"UPPER", b"0"]
 ODD = [b"\xff\xfe", b"a*b", b"q?", b"[x]", b"x" * 101, b"y" * 160, b"w" * 256, b"'q'", b'"dq"', b"{b}", b"a=b", b"\xf0\x9f\x98\x80"]
 DATA = [b"", b"x", b"hello\n", b"#!/bin/sh\necho hi\n", b"\0\1\2binary\xff", b"line1\nline2\n", b"package main\n"]
@@ -275,6 +275,21 @@ def gen_case(rng, bucket):
         c["time"] = rng.choice(TIMES + ODDTIMES + ODDTIMES)
     elif bucket == "format":
         c["format"] = rng.choice(["tar", "tar.gz", "tgz", "zip", "", "rar", "TAR", "tar.xz"])
+    elif bucket == "filter-sibling":
+        # a filter naming X while X<more> exists next to it: "a" must not select "ab" or "a.b"
+        base = rng.choice([b"a", b"d", b"src"])
+        have = {bytes.fromhex(e["name"]) for e in tree}
+        for nm, kind in [(base, rng.choice(["file", "dir"])), (base + rng.choice([b"b", b".x", b"2", b"-"]), rng.choice(["file", "dir", "exec"]))]:
+            if nm not in have:
+                have.add(nm)
+                e = {"kind": kind, "name": nm.hex()}
+                if kind == "dir":
+                    e["entries"] = [{"kind": "file", "name": b"f".hex(), "data": b"x".hex()}]
+                else:
+                    e["data"] = b"s".hex()
+                tree.append(e)
+        tree.sort(key=sort_key)
+        c["paths"] = [base.hex()]
     elif bucket in ("filter", "filter-odd") and ps:
         fs = []
         for _ in range(rng.choice([1, 1, 1, 2, 3])):
@@ -307,7 +322,7 @@ class Main(Suite):
     coq_chunk = 150
 
     def gen(self, rng, n, tier):
-        buckets = [(4, "plain"), (2, "odd-names"), (2, "empty-dirs"), (3, "prefix"), (3, "treeish"), (2, "time"), (1, "format"), (4, "filter"), (3, "filter-odd")]
+        buckets = [(4, "plain"), (2, "odd-names"), (2, "empty-dirs"), (3, "prefix"), (3, "treeish"), (2, "time"), (1, "format"), (4, "filter"), (2, "filter-sibling"), (3, "filter-odd")]
         return [gen_case(rng, pick_weighted(rng, buckets)) for _ in range(n)]
 
     def nontrivial(self, c):
@@ -397,36 +412,52 @@ class Main(Suite):
         return fails
 
     def finding_class(self, c, reason, reply):
-        """narrow classes: each explains the WHOLE difference of the case, anything else stays a violation"""
+        """narrow classes: each must explain the WHOLE difference of the case, anything else stays a violation"""
         g = (getattr(self, "_git", None) or {}).get(c.get("id"))
         fs = [bytes.fromhex(p) for p in c["paths"]]
-        if any(glob_chars(f) for f in fs):
-            return "filter-glob"
-        if any(f.endswith(b"/") for f in fs):
-            return "filter-trailing-slash"
         mine = self.impl_listing(c, reply)
-        if g is None or mine[0] != "ok":
+        if g is None:
             return None
+        zipf = (c["format"] or "tar") == "zip"
+        prefix = bytes.fromhex(c["prefix"])
+
+        def norm(l):
+            """zip-layout view: files only, no modes, a link is a file holding its target"""
+            if not zipf:
+                return list(l)
+            return [("file", e[1], e[3], e[4]) if e[0] in ("file", "link") else e for e in l if e[0] != "dir"]
+
+        def subseq(a, b):
+            it = iter(b)
+            return all(x in it for x in a)
+
         if g[0] == "err":
-            if g[1] == "nomatch" and fs:
-                return "filter-nomatch-accepted"
+            # git refuses: go-git archiving anyway is the nomatch finding (literal filters) or the glob finding
+            if g[1] == "nomatch" and fs and mine[0] == "ok":
+                return "filter-glob" if any(glob_chars(f) for f in fs) else "filter-nomatch-accepted"
             return None
         if g[0] != "ok":
             return None
-        if (c["format"] or "tar") == "zip":
-            def norm(l, git):
-                out = []
-                for e in l:
-                    if e[0] == "dir":
-                        continue
-                    out.append(("file", e[1], e[3], e[4]) if e[0] in ("file", "link") else e)
-                return out
-            if norm(mine[1], False) == norm(g[1], True):
-                return "zip-layout"
+        if mine[0] == "err":
+            # go-git finds no match where git does: only a glob that would have to cross '/'
+            if mine[1] == "nomatch" and any(glob_chars(f) for f in fs):
+                return "filter-glob"
             return None
+        if mine[0] != "ok":
+            return None
+        a, b = norm(mine[1]), norm(g[1])
+        if a == b:
+            return "zip-layout" if zipf else None
+        missing = [e for e in b if e not in a]
+        if subseq(a, b) and all(e[0] != "pax" for e in missing):
+            names = [e[1][len(prefix):] for e in missing]
+            slashed = [f for f in fs if f.endswith(b"/") and not glob_chars(f)]
+            if slashed and all(any(n.startswith(f) for f in slashed) for n in names):
+                return "filter-trailing-slash"
+            if any(glob_chars(f) for f in fs):
+                return "filter-glob"
         empties = empty_dir_paths(c["tree"])
-        if empties:
-            prefix = bytes.fromhex(c["prefix"])
+        if empties and not zipf:
             drop = {prefix + p + b"/" for p in empties}
             if [e for e in mine[1] if not (e[0] == "dir" and e[1] in drop)] == g[1]:
                 return "empty-subtree"
